@@ -163,7 +163,8 @@ fn eval(spec: &'static Spec, syms: &[Sym], p: &[usize], s: &[usize], cycles: u32
     // display) differs between the driver with these settings and a driver with default settings.
     // Where wake_up programs such a register at all, it must program the value of the settings in
     // force ("as construction does for the driver's current settings"), not a fixed one.
-    let mut derived: Vec<(u8, Vec<u8>)> = Vec::new();
+    // (register, value with the settings, value with default settings)
+    let mut derived: Vec<(u8, Vec<u8>, Vec<u8>)> = Vec::new();
     if !settings.is_empty() {
         let probes = [frame_op(spec, K::UpdateFrame, 0xC08), Op::new(K::Clear), Op::new(K::Display)];
         let mut with = Rig::simple(spec);
@@ -173,7 +174,7 @@ fn eval(spec: &'static Spec, syms: &[Sym], p: &[usize], s: &[usize], cycles: u32
             let b = without.board.borrow().chip().reg_snapshot();
             for (k, v) in a.iter() {
                 if !v.is_empty() && b.get(k).map(|w| w != v).unwrap_or(false) {
-                    derived.push((*k, v.clone()));
+                    derived.push((*k, v.clone(), b.get(k).cloned().unwrap_or_default()));
                 }
             }
         }
@@ -192,14 +193,16 @@ fn eval(spec: &'static Spec, syms: &[Sym], p: &[usize], s: &[usize], cycles: u32
                 break;
             }
         }
-        for (k, v) in &derived {
+        for (k, v, dflt) in &derived {
             if let Some(got) = snap.get(k) {
-                if got != v && !established.iter().any(|e| e.0 == *k) {
+                // judged only where wake_up programs exactly the default-settings value: a register that
+                // is also used as a per-operation sequencing byte (SSD 0x22) legitimately holds other values
+                if got != v && got == dflt && !established.iter().any(|e| e.0 == *k) {
                     out.push((
                         "wake_up".into(),
                         "register-snapshot-differs".into(),
                         vec![format!("reg={:02X}", k), "setting-derived".into()],
-                        format!("register {:02X} follows the settings call(s) [{}] in ordinary use ([{}] instead of the default-settings value) but wake_up programs [{}]", k, ops_short(&settings), hex(v), hex(got)),
+                        format!("register {:02X} follows the settings call(s) [{}] in ordinary use ([{}] instead of the default-settings value [{}]) but wake_up programs the default-settings value", k, ops_short(&settings), hex(v), hex(got)),
                     ));
                     break;
                 }
@@ -220,6 +223,18 @@ fn eval(spec: &'static Spec, syms: &[Sym], p: &[usize], s: &[usize], cycles: u32
                     let which = if ea[0] != eb[0] { 0 } else { 1 };
                     out.push(("wake_up".into(), "post-wake-memory-differs".into(), vec![format!("plane={}", which)], format!("suffix [{}] leaves plane {} different from the same suffix after construction", ops_short(&suf), which)));
                 }
+                // the suffix must also leave the controller configured the same way (a driver flag that
+                // survived the sleep makes a later call skip its own re-configuration)
+                let ra = rig.board.borrow().chip().reg_snapshot();
+                let rb = refrig.board.borrow().chip().reg_snapshot();
+                if let Some((op, d)) = diff_snapshots(&ra, &rb) {
+                    out.push(("wake_up".into(), "post-wake-registers-differ".into(), vec![format!("reg={:02X}", op)], format!("after the suffix [{}]: {} (reference = the same suffix after construction)", ops_short(&suf), d.replace("after wake_up", "here"))));
+                } else {
+                    let (pa, pb) = (rig.board.borrow().chip().power, refrig.board.borrow().chip().power);
+                    if pa != pb {
+                        out.push(("wake_up".into(), "post-wake-registers-differ".into(), vec!["power".into()], format!("after the suffix [{}] the controller is {:?}, {:?} after the same suffix following construction", ops_short(&suf), pa, pb)));
+                    }
+                }
             }
             (Err(e), Ok(())) => out.push(("wake_up".into(), "post-wake-memory-differs".into(), vec!["suffix-fails".into()], format!("suffix fails after wake_up but not after construction: {}", e))),
             (_, Err(e)) => return Err(e),
@@ -229,7 +244,7 @@ fn eval(spec: &'static Spec, syms: &[Sym], p: &[usize], s: &[usize], cycles: u32
         rep.count("reset_pulses_checked", resets_seen);
         rep.count("register_snapshots_compared", 1);
         rep.count("registers_in_snapshot", snap.len() as u64);
-        rep.count("setting_derived_registers_checked", derived.iter().filter(|d| snap.contains_key(&d.0)).count() as u64);
+        rep.count("setting_derived_registers_checked", derived.iter().filter(|d| snap.get(&d.0) == Some(&d.1) || snap.get(&d.0) == Some(&d.2)).count() as u64);
         if !suf.is_empty() {
             rep.count("suffix_memory_effects_compared", 1);
         }
@@ -285,7 +300,26 @@ pub fn run(ctx: &Ctx) -> Report {
                 }
             }
         }
-        let _ = &mut rng;
+        // sampled longer prefixes (the settings and partial/quick operations of a longer session) with one suffix symbol
+        let big = spec.w * spec.h > 300 * 400;
+        let nwalk = match (ctx.tier_thorough, big) {
+            (false, true) => 20,
+            (false, false) => 150,
+            (true, true) => 300,
+            (true, false) => 3000,
+        };
+        for j in 0..nwalk {
+            let n = if ctx.tier_thorough { 3 + j % 5 } else { 2 + j % 3 };
+            let p = random_history(spec, &syms, n, &mut rng);
+            // a suffix symbol that the grammar allows after the prefix
+            let mut g = Grammar::default();
+            for i in &p {
+                g.step(spec, &syms[*i]);
+            }
+            let cand: Vec<usize> = (0..syms.len()).filter(|i| g.allows(spec, &syms[*i])).collect();
+            let s = if cand.is_empty() || j % 4 == 0 { vec![] } else { vec![cand[(rng.next() as usize) % cand.len()]] };
+            cases.push(Case { spec, p, s, cycles: 1 + (j % 5 == 0) as u32, bare: false });
+        }
     }
     let variant = ctx.variant.clone();
     let mut rep12 = Report::new();
